@@ -6,6 +6,10 @@ HERE = os.path.dirname(os.path.dirname(os.path.abspath(__file__)))
 props = [json.loads(l) for l in open(os.path.join(HERE, "properties.jsonl"))]
 
 CLAIMS = {
+ "C03": dict(
+  technique="custom static checker: predicate-abstraction skeletons of the 19 assert functions against oracle truth tables (paths forked on normalised condition atoms, failWith as terminator), range analysis of operand conversions, exhaustive IEEE-754 constant folding of doubles_equal over the class partition NaN/+-Inf/finite lattice x thresholds (2300 cells), 256-value folding of the character classifiers, forwarding table of the C entry points",
+  text="Decides that every assert counts exactly one check on every path before any failure, fails exactly on the valuations of its own condition atoms that make the named predicate false, compares its parameters themselves, reaches string/memory comparison only with non-null operands and reports (expected, actual) in order; doubles_equal is folded exhaustively over the floating-point classes the property names; the C entry points forward with value-preserving widening and the longjmp terminator. Textbook semantics of the string/memory compare primitives on arbitrary bytes and the macro expansions in user code are not decided.",
+  note="Trusted: IEEE-754 double arithmetic (folded with the same semantics); clang AST/CFG; failWith never returns (decided in C01.R3)."),
  "C02": dict(
   technique="custom static checker: per-iteration path enumeration of the registry loop (call counting with callee summaries over all runOneTest overrides), who-writes analysis of next_/tests_/array elements, exhaustive constant folding of match() over all filter lists up to length 3 x all outcomes, of TestFilter::match over its 16 valuations, of swap and of relinkTestsInOrder for 0..4 entries, structural bounds of the shuffle/reverse loops",
   text="Decides the accounting identity tests = run + ignored + filtered per iteration of the registry loop for every path and every runOneTest override; the selection predicate (AND of two ORs over the filter lists, strict/substring/inverted truth table); that shuffle and reverse only swap in-range entries of an array filled with every list element and relink all of them in array order before the registry stores the new head; and that group start/end notifications are emitted exactly by the groupStart/endOfGroup transition. String comparison semantics and the random source are not decided.",
